@@ -1,0 +1,129 @@
+//go:build verif
+
+/*
+ Licensed to the Apache Software Foundation (ASF) under one
+ or more contributor license agreements.  See the NOTICE file
+ distributed with this work for additional information
+ regarding copyright ownership.  The ASF licenses this file
+ to you under the Apache License, Version 2.0 (the
+ "License"); you may not use this file except in compliance
+ with the License.  You may obtain a copy of the License at
+
+     http://www.apache.org/licenses/LICENSE-2.0
+
+ Unless required by applicable law or agreed to in writing, software
+ distributed under the License is distributed on an "AS IS" BASIS,
+ WITHOUT WARRANTIES OR CONDITIONS OF ANY KIND, either express or implied.
+ See the License for the specific language governing permissions and
+ limitations under the License.
+*/
+
+package objects
+
+import (
+	"time"
+)
+
+// Verification hooks (build tag verif): deterministic access to the timers and timing variables.
+
+// VerifTimers reports whether the placeholder timer and the state timer are armed.
+func (sa *Application) VerifTimers() (bool, bool) {
+	sa.RLock()
+	defer sa.RUnlock()
+	return sa.placeholderTimer != nil, sa.stateTimer != nil
+}
+
+// VerifFirePlaceholderTimer runs what the armed placeholder timer would run. Returns false if not armed.
+func (sa *Application) VerifFirePlaceholderTimer() bool {
+	sa.Lock()
+	if sa.placeholderTimer == nil {
+		sa.Unlock()
+		return false
+	}
+	sa.placeholderTimer.Stop()
+	sa.Unlock()
+	sa.timeoutPlaceholderProcessing()
+	return true
+}
+
+// VerifFireStateTimer runs what the armed state timer would run. The timer is always created when entering the
+// current state (leave_state clears it), with Completing -> CompleteApplication and terminal -> ExpireApplication.
+func (sa *Application) VerifFireStateTimer() bool {
+	sa.Lock()
+	if sa.stateTimer == nil {
+		sa.Unlock()
+		return false
+	}
+	sa.stateTimer.Stop()
+	cur := sa.stateMachine.Current()
+	event := ExpireApplication
+	if cur == Completing.String() {
+		event = CompleteApplication
+	}
+	sa.Unlock()
+	sa.timeoutStateTimer(cur, event)()
+	return true
+}
+
+// VerifStopTimers stops the timers so that a discarded world cannot act on process global state later.
+func (sa *Application) VerifStopTimers() {
+	sa.Lock()
+	defer sa.Unlock()
+	if sa.placeholderTimer != nil {
+		sa.placeholderTimer.Stop()
+	}
+	if sa.stateTimer != nil {
+		sa.stateTimer.Stop()
+	}
+}
+
+// VerifSetTimings sets the package level timing variables (zero or negative values leave a variable unchanged).
+func VerifSetTimings(preemptFrequency, reservationWait time.Duration) {
+	if preemptFrequency >= 0 {
+		preemptAttemptFrequency = preemptFrequency
+	}
+	if reservationWait >= 0 {
+		reservationWaitTimeout = reservationWait
+	}
+}
+
+// VerifQuotaPreemptionState returns whether a quota preemption start time is set, whether it has passed,
+// and whether a quota preemption run is in progress.
+func (sq *Queue) VerifQuotaPreemptionState() (bool, bool, bool) {
+	sq.RLock()
+	defer sq.RUnlock()
+	return !sq.quotaPreemptionStartTime.IsZero(), !sq.quotaPreemptionStartTime.IsZero() && !time.Now().Before(sq.quotaPreemptionStartTime), sq.isQuotaPreemptionRunning
+}
+
+// VerifReservations returns the reservations of the application as allocation key -> node ID.
+func (sa *Application) VerifReservations() map[string]string {
+	sa.RLock()
+	defer sa.RUnlock()
+	res := make(map[string]string)
+	for k, r := range sa.reservations {
+		res[k] = r.nodeID
+	}
+	return res
+}
+
+// VerifSortedRequestKeys returns the keys of the requests in scheduling order.
+func (sa *Application) VerifSortedRequestKeys() []string {
+	sa.RLock()
+	defer sa.RUnlock()
+	res := make([]string, 0, len(sa.sortedRequests))
+	for _, r := range sa.sortedRequests {
+		res = append(res, r.GetAllocationKey())
+	}
+	return res
+}
+
+// VerifReservationDetails returns for each reservation on the node: allocation key -> application ID.
+func (sn *Node) VerifReservationDetails() map[string]string {
+	sn.RLock()
+	defer sn.RUnlock()
+	res := make(map[string]string)
+	for k, r := range sn.reservations {
+		res[k] = r.appID
+	}
+	return res
+}
